@@ -414,7 +414,9 @@ impl<T: Config> UdpProtocol<T> {
                 }
 
                 // trigger a NetworkInterrupted event if we didn't receive a packet for some time
+                // (nothing is reported for an endpoint once its Disconnected event is out)
                 if !self.disconnect_notify_sent
+                    && !self.disconnect_event_sent
                     && self.last_recv_time + self.disconnect_notify_start < now
                 {
                     let duration: Duration = self
@@ -626,7 +628,11 @@ impl<T: Config> UdpProtocol<T> {
         self.last_recv_time = Instant::now();
 
         // if the connection has been marked as interrupted, send an event to signal we are receiving again
-        if self.disconnect_notify_sent && self.state == ProtocolState::Running {
+        // (unless the Disconnected event for this endpoint is already out)
+        if self.disconnect_notify_sent
+            && !self.disconnect_event_sent
+            && self.state == ProtocolState::Running
+        {
             trace!("Received message on interrupted protocol; sending NetworkResumed event");
             self.disconnect_notify_sent = false;
             self.event_queue.push_back(Event::NetworkResumed);
